@@ -180,6 +180,9 @@ def configs(tier):
         for k in ((1, 2, 5) if tier == 'quick' else (1, 2, 5, 10)):
             out.append({'name': 'dtlz1-m%d-k%d' % (m, k), 'task': 'dtlz', 'args': {'family': 1, 'm': m, 'k': k},
                         'weight': m * k, 'engine': {'validate': 5, 'first_timeout_s': 0.5}})
+    for m, k in (((6, 1), (7, 1)) if tier == 'quick' else ((6, 1), (7, 1), (6, 2), (9, 1))):      # size thresholds: many objectives
+        out.append({'name': 'dtlz1-m%d-k%d' % (m, k), 'task': 'dtlz', 'args': {'family': 1, 'm': m, 'k': k},
+                    'weight': m * k * 5, 'engine': {'validate': 5, 'first_timeout_s': 0.5}})
     for fam in (2, 3, 4):
         for m in range(2, M + 1):
             out.append({'name': 'dtlz%d-m%d' % (fam, m), 'task': 'dtlz', 'args': {'family': fam, 'm': m},
